@@ -711,3 +711,10 @@ Proof.
   eexists. eexists. eexists. split; [exact R|]. split; [cbn; right; left; reflexivity|].
   split; [vm_compute; reflexivity|]. vm_compute. repeat split; reflexivity.
 Qed.
+
+(* the ServerKeyExchange must be signed by certificate 0's key (requirement (iii) of 1): the holder of the ENCRYPTION
+   certificate's key - which in the GM dual-certificate PKI is escrowed - signing the right randoms and the right
+   encryption certificate is refused *)
+Example C08_skx_signed_with_the_encryption_key_rejected :
+  is_error (ex_attack [ex_sig; ex_enc] [IHs (MServerKeyExchange true TNil (TSig 102 (ex_payload (TRand 11) (TRand 21) ex_enc)))]) = true.
+Proof. vm_compute. reflexivity. Qed.
